@@ -105,7 +105,17 @@ def run(db, chk) -> None:
             chk.ob("C06.R2-classification", f"table row p={vals[0]} q={vals[1]}", r == T.C(want[vals]), where, found=T.show(r)[:200],
                    accepted=f"{want[vals]} (IdleTimeType value)", why="{p->HOST_WAIT; !p&q->KERNEL_WAIT; !p&!q->OTHER}")
     tot = T.agg("sum", idle_t, R.ctx())
-    check_term(chk, "C06.R3-totals", "idle_time_ratio = idle_time / sum of the stream's idle_time", where, R.col("idle_time_ratio"), [T.div(idle_t, tot)])
+    def _plain(x):
+        if isinstance(x, tuple):
+            return _plain(x[1]) if len(x) == 2 and x[0] == "coldata" else tuple(_plain(y) for y in x)
+        return x
+    ratio_t = R.col("idle_time_ratio")
+    acc_ratio = [T.div(idle_t, tot)]
+    X = T.renorm(_plain(idle_t))
+    # the total may have been taken on the per-category series before the result frame was assembled: the sum of the same term over ALL rows of that table
+    for c_ in {s_[3] for s_ in T.find(_plain(ratio_t), lambda s_: s_[0] == "agg" and len(s_) == 5 and s_[1] == "sum" and s_[4] == ()) if isinstance(s_[3], tuple) and len(s_[3]) == 3 and s_[3][1] == T.TRUE}:
+        acc_ratio.append(T.div(X, T.agg("sum", X, c_)))
+    check_term(chk, "C06.R3-totals", "idle_time_ratio = idle_time / sum of the stream's idle_time", where, ratio_t, acc_ratio)
     check_term(chk, "C06.R3-totals", "stream column = the analysed stream", where, R.col("stream"), [STREAM])
     chk.floor("C06.R2-classification", 5)
 
